@@ -603,7 +603,7 @@ REQUIRED_STRATA = {"all": ["agreement:queries", "agreement:gradients", "grid:gri
 
 PARTS = {
     "totality": {"runner": runner_totality, "replay": fuzzrun.replay_fuzz},
-    "agreement": {"strategy": spec_agree, "check": check_agree, "examples": {"quick": 500, "thorough": 12000}, "sample": view},
-    "grid": {"strategy": spec_grid, "check": check_grid, "examples": {"quick": 500, "thorough": 12000}, "sample": view},
-    "equivalence": {"strategy": spec_equiv, "check": check_equiv, "examples": {"quick": 500, "thorough": 12000}, "sample": view},
+    "agreement": {"strategy": spec_agree, "check": check_agree, "examples": {"quick": 1000, "thorough": 12000}, "sample": view},
+    "grid": {"strategy": spec_grid, "check": check_grid, "examples": {"quick": 1000, "thorough": 12000}, "sample": view},
+    "equivalence": {"strategy": spec_equiv, "check": check_equiv, "examples": {"quick": 1000, "thorough": 12000}, "sample": view},
 }
